@@ -320,6 +320,9 @@ def execute(case):
                     if bad:
                         mism.append({'step': step, 'clause': 'ReplayState', 'pos': p + 1, 'detail': bad,
                                      'fam': famof[oid], 'chain': '>'.join(chain[oid])})
+        else:
+            events.append({'ev': 'end'})
+            meta.append({'fam': '?', 'last': 'end', 'chain': ''})
     finally:
         shutil.rmtree(tmpdir, ignore_errors=True)
     return events, meta, mism, stats
@@ -394,9 +397,9 @@ def run(ctx):
             rej = {cfg: ex.submit(ctx.model, 'MC_Session', cfg, 2, False) for cfg in REJECTED}
             f_beh = ex.submit(_behaviours, ctx.pick('MC_Session_beh2', 'MC_Session_beh'), (), 3000)
             f_s6 = ex.submit(_behaviours, 'MC_Session_sim',
-                             ['-simulate', 'num=%d' % ctx.pick(400, 8000), '-depth', '9', '-seed', str(ctx.seed + 1)])
+                             ['-simulate', 'num=%d' % ctx.pick(400, 6000), '-depth', '9', '-seed', str(ctx.seed + 1)])
             f_s12 = ex.submit(_behaviours, 'MC_Session_sim12',
-                              ['-simulate', 'num=%d' % ctx.pick(110, 3000), '-depth', '15', '-seed', str(ctx.seed + 2)])
+                              ['-simulate', 'num=%d' % ctx.pick(110, 2400), '-depth', '15', '-seed', str(ctx.seed + 2)])
             for cfg, inv in REJECTED.items():
                 bad = rej[cfg].result()
                 if bad.ok or bad.violated != inv:
@@ -411,9 +414,9 @@ def run(ctx):
         for lst in (behs, sim6, sim12):
             rnd.shuffle(lst)
         cases = []
-        plan = [(behs, 'grid', ctx.pick(450, len(behs))), (behs[::-1], 'real', ctx.pick(200, 8000)),
-                (sim6, 'grid', ctx.pick(200, 4000)), (sim6[::-1], 'real', ctx.pick(200, 4000)),
-                (sim12, 'grid', ctx.pick(50, 1500)), (sim12[::-1], 'real', ctx.pick(60, 1500))]
+        plan = [(behs, 'grid', ctx.pick(450, 12000)), (behs[::-1], 'real', ctx.pick(200, 5000)),
+                (sim6, 'grid', ctx.pick(200, 3000)), (sim6[::-1], 'real', ctx.pick(200, 3000)),
+                (sim12, 'grid', ctx.pick(50, 1200)), (sim12[::-1], 'real', ctx.pick(60, 1200))]
         for lst, kind, n in plan:
             for b in lst[:n]:
                 cases.append(_beh_to_case(b, kind, '%s%d' % (kind[0], len(cases)), rnd))
